@@ -99,51 +99,34 @@ def simulate_paths(work, name, ns, nc, h, atomic, num, depth, seed):
     return generated, plans, exps, len(edges)
 
 
-class Batch:
-    """all runs of the real code of this check; judged together at the end"""
-
-    def __init__(self):
-        self.runs = []      # (reset, events)
-        self.plans = []     # plan or None
-        self.source = []    # text
-        self.group = []     # statistics key
-        self.random = []    # None or {"args": [...], "run": k}
-
-    def add(self, runs, plans, source, group, random_args=None):
-        for k, r in enumerate(runs):
-            self.runs.append(r)
-            self.plans.append(plans[k] if plans else None)
-            self.source.append(source)
-            self.group.append(group)
-            self.random.append({"args": random_args, "run": k} if random_args else None)
-
-
-def replay_paths(chk, bindirs, batch, plans, exps, tag, source, stats):
-    """run the plans on the real code (each build) and compare every step with the model (B1)"""
+def replay_paths(chk, bindirs, stream, plans, exps, tag, source, stats, chunk=8000):
+    """run the plans on the real code (each build), compare every step with the model (B1), stream to the judge"""
     for k, p in enumerate(plans):
         p["run"] = k
-    ppath = os.path.join(chk.work, "plan_%s.ndjson" % tag)
-    core.write_ndjson(ppath, plans)
     stats.update({"runs": 0, "steps_compared": 0, "divergent_runs": 0, "first_divergence": None})
-    for build, bindir in bindirs.items():
-        runs = R.run_harness(bindir, ["plan", ppath])
-        if len(runs) != len(plans):
-            raise core.ToolError("harness returned %d runs for %d plans" % (len(runs), len(plans)))
-        batch.add(runs, plans, "%s/%s" % (source, build), tag)
-        for k, (reset, evs) in enumerate(runs):
-            stats["runs"] += 1
-            div = None
-            for j, (op, arg, node) in enumerate(exps[k]):
-                d = R.compare_step(op, arg, node, evs[j] if j < len(evs) else None)
-                if d:
-                    div = (j, d)
-                    break
-                stats["steps_compared"] += 1
-            if div:
-                stats["divergent_runs"] += 1
-                if stats["first_divergence"] is None:
-                    stats["first_divergence"] = {"build": build, "run": k, "step": div[0], "diff": div[1], "plan": plans[k]}
-    os.unlink(ppath)
+    for c0 in range(0, len(plans), chunk):
+        ppath = os.path.join(chk.work, "plan_%s_%d.ndjson" % (tag, c0))
+        core.write_ndjson(ppath, plans[c0:c0 + chunk])
+        stream.planfiles.append(ppath)
+        for build, bindir in bindirs.items():
+            runs = R.run_harness(bindir, ["plan", ppath])
+            if len(runs) != len(plans[c0:c0 + chunk]):
+                raise core.ToolError("harness returned %d runs for %d plans" % (len(runs), len(plans[c0:c0 + chunk])))
+            for i, (reset, evs) in enumerate(runs):
+                k = c0 + i
+                stream.add(reset, evs, group=tag, source="%s/%s" % (source, build), plan_ref=(ppath, i))
+                stats["runs"] += 1
+                div = None
+                for j, (op, arg, node) in enumerate(exps[k]):
+                    d = R.compare_step(op, arg, node, evs[j] if j < len(evs) else None)
+                    if d:
+                        div = (j, d)
+                        break
+                    stats["steps_compared"] += 1
+                if div:
+                    stats["divergent_runs"] += 1
+                    if stats["first_divergence"] is None:
+                        stats["first_divergence"] = {"build": build, "run": k, "step": div[0], "diff": div[1], "plan": plans[k]}
 
 
 def run(tier):
@@ -175,7 +158,8 @@ def run(tier):
     core.log("phase A (TLC: %d exhaustive configs, %d simulations, %d expected failures) %.1fs" % (len(tours), len(sims), len(xfs), time.time() - t0))
     # ---- phase B: the real code along the tours / behaviours (B1), random runs
     t1 = time.time()
-    batch = Batch()
+    stream = R.Stream(chk, "all")
+    stream.planfiles = []
     conformance = True
     tour_stats, sim_stats, rnd_stats = {}, {}, {}
     total_edges = 0
@@ -184,13 +168,15 @@ def run(tier):
         chk.add_tlc(res)
         consts = {"ns": ns, "nc": nc, "h": h}
         plans, exps = [], []
-        for fl in (flagsets if ns <= 4 else flagsets[:1]):
+        # every flag variant on the small per-side graphs, plain + all flags up to size 4, plain only beyond
+        fls = flagsets if (ns <= 2 and side != "both") else ([flagsets[0], flagsets[-1]] if ns <= 4 and side != "both" else flagsets[:1])
+        for fl in fls:
             for (init, steps) in paths:
                 p, e = R.path_to_run(g, consts, 0, init, steps, flags=fl)
                 plans.append(p)
                 exps.append(e)
         st = {"model_states": res.distinct, "model_edges": g.nedges, "paths": len(paths), "edges_covered_by_tour": g.nedges}
-        replay_paths(chk, bindirs, batch, plans, exps, "tour_" + name, "tour " + name, st)
+        replay_paths(chk, bindirs, stream, plans, exps, "tour_" + name, "tour " + name, st)
         tour_stats[name] = st
         total_edges += g.nedges
         conformance = conformance and not st["divergent_runs"]
@@ -202,7 +188,7 @@ def run(tier):
         generated, plans, exps, nedges = r_sims[name]
         chk.transitions += generated
         st = {"behaviours": len(plans), "distinct_model_edges_visited": nedges}
-        replay_paths(chk, bindirs, batch, plans, exps, name, "simulated " + name, st)
+        replay_paths(chk, bindirs, stream, plans, exps, name, "simulated " + name, st)
         sim_stats[name] = st
         conformance = conformance and not st["divergent_runs"]
         chk.evaluations += st["steps_compared"]
@@ -213,20 +199,26 @@ def run(tier):
         # a tenth of the runs lets the kernel act between get_next_cqe and the read through its result
         args = [nruns, nsteps, chk.seed, 100, 3]
         runs = R.run_harness(bindir, ["random"] + args)
-        batch.add(runs, None, "random/%s seed %d" % (build, chk.seed), "random_" + build, random_args=args)
+        for i, (reset, evs) in enumerate(runs):
+            stream.add(reset, evs, group="random_" + build, source="random/%s seed %d" % (build, chk.seed), random_ref={"args": args, "run": i})
         wrapped = sum(1 for (reset, evs) in runs if evs and max(evs[-1]["st"]) >= reset["h"] > min(reset["sq0"], reset["cq0"]))
         rnd_stats["random_" + build] = {"runs": len(runs), "events": sum(len(evs) for _, evs in runs), "runs_crossing_u32_wrap": wrapped}
     args = [2, 20000 if quick else 300000, chk.seed + 7, 0, 3]
     runs = R.run_harness(bindirs["debug"], ["random"] + args)
-    batch.add(runs, None, "random-long/debug seed %d" % (chk.seed + 7), "random_long", random_args=args)
+    for i, (reset, evs) in enumerate(runs):
+        stream.add(reset, evs, group="random_long", source="random-long/debug seed %d" % (chk.seed + 7), random_ref={"args": args, "run": i})
     rnd_stats["random_long"] = {"runs": len(runs), "events": sum(len(evs) for _, evs in runs)}
-    core.log("phase B (real code: %d runs) %.1fs" % (len(batch.runs), time.time() - t1))
+    del runs
+    core.log("phase B (real code: %d runs) %.1fs" % (len(stream.meta), time.time() - t1))
     # ---- phase C: property-level judgement of every run by TLC (B2)
     t2 = time.time()
-    bad = R.judge(chk, batch.runs, "all", parallel=4)
-    rejected = R.report(chk, batch, bad)
+    bad = stream.judge(parallel=4)
+    rejected = R.report_stream(chk, stream, bad, bindirs)
+    for pf in stream.planfiles:
+        os.unlink(pf)
     per_group = {}
-    for k, gname in enumerate(batch.group):
+    for k, m in enumerate(stream.meta):
+        gname = m["group"]
         d = per_group.setdefault(gname, {"runs_judged": 0, "runs_rejected": 0})
         d["runs_judged"] += 1
         if k in rejected:
@@ -240,7 +232,7 @@ def run(tier):
     for name, st in rnd_stats.items():
         st.update(per_group.get(name, {}))
         chk.evaluations += st["events"]
-    core.log("phase C (TLC judge: %d runs, %d rejected) %.1fs" % (len(batch.runs), len(rejected), time.time() - t2))
+    core.log("phase C (TLC judge: %d runs, %d rejected) %.1fs" % (len(stream.meta), len(rejected), time.time() - t2))
     # ---- evidence
     chk.nontrivial = total_edges
     chk.rule = ("distinct transitions (edges) of the dumped Ring.tla state graphs, each replayed at least once into the real "
@@ -269,6 +261,9 @@ def replay(path):
     chk = core.Check("C17", "quick", "model_checking")
     build = rp["reset"]["build"]
     bindir = core.cargo_build(bins=["ring"], release=(build == "release"))
+    if rp.get("plan") is None and rp.get("plan_ref"):
+        print("this rejection was recorded without its events (same clause and build as earlier ones); see the first replay file of this clause")
+        return 0
     if rp.get("plan") and "steps" in rp["plan"]:
         ppath = os.path.join(chk.work, "replay_plan.ndjson")
         core.write_ndjson(ppath, [rp["plan"]])
@@ -284,3 +279,44 @@ def replay(path):
             print(json.dumps(ev))
     print("verdict:", [(e, why) for (_, e, why) in bad] if bad else "accepted by RingTrace")
     return 1 if bad else 0
+
+
+def selftest():
+    """anti-vacuity of the binding (DESIGN.md 3.3): (1) a recorded run of the real code is accepted, the same run with
+    one field corrupted / one event dropped is rejected by RingTrace; (2) a stored negative patch makes the check fail."""
+    import copy
+    import subprocess
+    chk = core.Check("C17", "quick", "model_checking")
+    bindir = core.cargo_build(bins=["ring"])
+    runs = R.run_harness(bindir, ["random", 3, 400, 11, 0, 2])
+    reset, evs = runs[0]
+    evs = [e for e in evs if e["ev"] != "skip"]
+    variants = {"recorded": evs}
+    ci = next(i for i, e in enumerate(evs) if e["ev"] == "consume")
+    v = copy.deepcopy(evs)
+    v[ci]["stamps"][0] += 1
+    variants["consume stamp corrupted"] = v
+    fi = next(i for i, e in enumerate(evs) if e["ev"] == "flush" and e["kavail"] > 0)
+    variants["flush dropped"] = evs[:fi] + evs[fi + 1:]
+    ri = next(i for i, e in enumerate(evs) if e["ev"] == "read")
+    v = copy.deepcopy(evs)
+    v[ri]["val"] += 1
+    variants["read value corrupted"] = v
+    pi = next(i for i, e in enumerate(evs) if e["ev"] == "post")
+    variants["post dropped"] = evs[:pi] + evs[pi + 1:]
+    gi = next(i for i, e in enumerate(evs) if e["ev"] == "get" and e["ret"] >= 0)
+    v = copy.deepcopy(evs)
+    v[gi]["ret"] = -1
+    variants["get answered None with free slots"] = v
+    ok = True
+    for name, ev in variants.items():
+        bad = R.judge(chk, [(reset, ev)], "selftest")
+        expect_rejected = name != "recorded"
+        print("selftest trace '%s': %s" % (name, "rejected (%s)" % bad[0][2] if bad else "accepted"))
+        ok = ok and (bool(bad) == expect_rejected)
+    patch = os.path.join(core.VERIF, "seeded", "C17-head-advance-2", "patch.diff")
+    p = subprocess.run([os.path.join(core.VERIF, "bin", "mutant-test"), patch, "C17"], stdout=subprocess.PIPE, stderr=subprocess.STDOUT, text=True)
+    print("selftest negative patch head-advance-2: %s" % ("detected" if p.returncode == 0 else "NOT detected"))
+    ok = ok and p.returncode == 0
+    print("C17 selftest", "OK" if ok else "FAILED")
+    return 0 if ok else 1
